@@ -4399,7 +4399,20 @@ def erase_namedtuple_interfaces(model, module_names: dict) -> list:
         for c in model.classes.values():
             if c.node is cnode or c.module.short.startswith("_typeguard"):
                 continue
-            if names & (set(c.methods) | {t.id for st in c.node.body if isinstance(st, ast.Assign) for t in st.targets if isinstance(t, ast.Name)}):
+            if names & (set(c.methods) | {t.id for st in c.node.body if isinstance(st, ast.Assign) for t in st.targets if isinstance(t, ast.Name)}
+                        | {st.target.id for st in c.node.body if isinstance(st, ast.AnnAssign) and isinstance(st.target, ast.Name)}):
+                ok = False  # (dataclass fields are annotated assignments: `_NamedVariadicDim.broadcastable`)
+        # ... and no function that is *unchanged* w.r.t. the pinned tree reads an attribute of that name (it cannot be reading the new record)
+        try:
+            from .inventory import HASHES as _H
+        except ImportError:
+            _H = {}
+        import hashlib as _hl
+
+        for q_, f_ in model.functions.items():
+            if not ok or f_.module.short.startswith("_typeguard") or q_ not in _H:
+                continue
+            if _H[q_] == _hl.sha1(ast.dump(f_.node).encode()).hexdigest()[:12] and any(isinstance(x, ast.Attribute) and x.attr in names for x in ast.walk(f_.node)):
                 ok = False
         for mod in model.modules.values():
             if mod.short.startswith("_typeguard") or not ok:
